@@ -17,7 +17,7 @@ Import ListNotations.
 Open Scope Z_scope.
 
 Theorem C06_packetize : forall pay p payload samples now, sane (pz_seq p) -> payload <> [] ->
-  let frags := pay (u16 (pz_mtu p - abs_overhead (pz_abs p))) payload in
+  let frags := pay (pz_budget p) payload in
   roc (pz_seq p) + zlen frags < 18446744073709551616 ->
   let '(p', pkts) := packetize pay p payload samples now in
   sane (pz_seq p') /\ ext (pz_seq p') = ext (pz_seq p) + zlen frags /\
@@ -67,7 +67,7 @@ Print Assumptions C06_padding_valid.
 
 Theorem C06_abs_send_time : forall pay p payload samples now, sane (pz_seq p) -> payload <> [] ->
   1 <= pz_abs p <= 255 ->
-  let frags := pay (u16 (pz_mtu p - abs_overhead (pz_abs p))) payload in
+  let frags := pay (pz_budget p) payload in
   frags <> [] -> roc (pz_seq p) + zlen frags < 18446744073709551616 ->
   exists init lastp,
     expected_train p (ext (pz_seq p)) frags = init ++ [lastp] /\
@@ -84,6 +84,30 @@ Theorem C06_mtu_abs : forall p e frags id b mtu, 1 <= id <= 255 -> zlen b = 3 ->
   Forall (fun pk => packet_marshal_size pk <= mtu) (init ++ [with_abs id b lastp]).
 Proof. exact train_abs_within_mtu. Qed.
 Print Assumptions C06_mtu_abs.
+
+(* "... and MTU": EVERY MTU, also one that leaves no room behind the header (12 bytes; 20 or 24 with the
+   abs-send-time block).  [pz_budget] is what Packetize offers the payloader: MTU less the header, and 0 - not
+   the uint16 wrap-around of the difference, as before the repair of D37 - when the MTU is smaller than that.
+   A payloader that honours the offer (fragments of 1 .. budget bytes, so none when there is no room) gives a
+   train whose every packet serialises to at most MTU bytes. *)
+Theorem C06_every_mtu : forall p e frags, pz_abs p = 0 ->
+  Forall (fun f => 1 <= zlen f <= pz_budget p) frags ->
+  Forall (fun pk => packet_marshal_size pk <= pz_mtu p) (expected_train p e frags).
+Proof. exact train_within_every_mtu. Qed.
+Print Assumptions C06_every_mtu.
+
+Theorem C06_every_mtu_abs : forall p e frags b, 1 <= pz_abs p <= 255 -> zlen b = 3 ->
+  Forall (fun f => 1 <= zlen f <= pz_budget p) frags ->
+  frags = [] \/
+  exists init lastp, expected_train p e frags = init ++ [lastp] /\
+    Forall (fun pk => packet_marshal_size pk <= pz_mtu p) (init ++ [with_abs (pz_abs p) b lastp]).
+Proof. exact train_abs_within_every_mtu. Qed.
+Print Assumptions C06_every_mtu_abs.
+
+Example C06_no_room_repaired :
+  pz_budget (mkPktz 11 96 1 0 0 (new_fixed 1)) = 0 /\ pz_budget (mkPktz 19 96 1 0 3 (new_fixed 1)) = 0 /\
+  pz_budget (mkPktz 23 96 1 0 200 (new_fixed 1)) = 0 /\ pz_budget (mkPktz 21 96 1 0 3 (new_fixed 1)) = 1.
+Proof. vm_compute. repeat split. Qed.
 
 (* "... and parses back equal": every packet of a train is a well-formed packet in the sense of C01,
    with the abs-send-time element on its last packet in either form, so C01_packet_roundtrip applies
